@@ -158,6 +158,50 @@ def gen_e2e_case(rng):
                              ",".join("%x:%x" % e for e in zip(pf, mf)), " ".join(probes))
 
 
+def gen_e2e_straddle(rng):
+    """Long lists whose .xen_p2m / .xen_pfn section starts at an unaligned file offset, so that
+    entries straddle the 4 KiB blocks of the file cache (read with and without mmap): the
+    entries at the block boundaries and their neighbours are probed in both views."""
+    nonauto = rng.random() < 0.65
+    esz = 16 if nonauto else 8
+    delta = rng.choice([8, 8, 4, 0xc, 1, 0] if nonauto else [4, 4, 1, 7, 2, 0])
+    never = rng.random() < 0.7
+    n = rng.choice([260, 300, 520, 700, 1100])
+    base = rng.choice([0x100, 0x10000, 0x2345678])
+    pf = []
+    p = base
+    while len(pf) < n:                      # ascending runs with a few gaps and one descending run
+        k = min(n - len(pf), rng.choice([7, 40, 130, 300]))
+        run = list(range(p, p + k))
+        if rng.random() < 0.2:
+            run.reverse()
+        pf += run
+        p += k + rng.choice([0, 1, 5])
+    if nonauto:
+        mbase = rng.choice([base, 0x40000, 0x7000000])      # same numbers (PV style) or others
+        mf = [mbase + (n - 1 - i) for i in range(n)] if rng.random() < 0.5 else \
+             [mbase + ((i * 7) % n if n % 7 else i) for i in range(n)]
+        if len(set(mf)) != n:
+            mf = [mbase + i for i in range(n)]
+    else:
+        mf = [0] * n
+    start = 0x170 + delta
+    cross = [k for k in range(n) if (start + esz * k) // 4096 != (start + esz * k + esz - 1) // 4096]
+    near = set()
+    for k in cross:
+        near.update(j for j in (k - 1, k, k + 1) if 0 <= j < n)
+    near.update(rng.sample(range(n), 6))
+    probes = []
+    for k in sorted(near):
+        off = rng.choice([0, 8, 0xff8])
+        probes.append("p:%x" % ((pf[k] << 12) | off))
+        if nonauto:
+            probes.append("m:%x" % ((mf[k] << 12) | off))
+    rng.shuffle(probes)
+    return "X %s:%x:%s %s | %s" % ("n" if nonauto else "a", delta, "n" if never else "d",
+                                   ",".join("%x:%x" % e for e in zip(pf, mf)), " ".join(probes[:70]))
+
+
 # ---- running ------------------------------------------------------------------
 
 def run_both(run, exe, lines, tag):
@@ -267,10 +311,13 @@ def check(run):
     ncorpus = len(lines)
     lines += [gen_index_case(run.rng, run.tier) for _ in range(n_idx)]
     lines += [gen_e2e_case(run.rng) for _ in range(n_e2e)]
+    n_str = 24 if quick else 400
+    lines += [gen_e2e_straddle(run.rng) for _ in range(n_str)]
     run.cov["rule"] = ("distinct case lines; non-trivial = the index has at least one range and one single, or an "
                        "allocation failure is injected (I cases) / at least one listed and one unlisted frame is "
                        "probed (X cases)")
-    run.cov["engines"]["xen"] = {"corpus_cases": ncorpus, "index_cases": n_idx, "end_to_end_cases": n_e2e}
+    run.cov["engines"]["xen"] = {"corpus_cases": ncorpus, "index_cases": n_idx, "end_to_end_cases": n_e2e,
+                                 "end_to_end_straddling_section_cases": n_str}
     shard = 4000
     for s0 in range(0, len(lines), shard):
         part = lines[s0:s0 + shard]
